@@ -268,6 +268,13 @@ def gen_scenario(rng, strategy=None, n_gc=None, feasible=True, features=None, ma
                 lvl: [[rng.choice(["08:15", "11:00"]), rng.choice(["12:30", "13:00"])],
                       [rng.choice(["16:30", "17:45"]), rng.choice(["19:00", "20:00"])],
                       ["23:00", "01:00"]] for lvl in ["HV", "MV", "LV"]}}}}
+        # some scenarios have no window change ahead: a voltage level without windows, or a season that is over
+        variant = rng.choice(["full", "full", "full", "full", "level_without_windows", "season_over"])
+        s1 = meta["time_windows"]["default_grid_operator"]["s1"]
+        if variant == "level_without_windows":
+            del s1["windows"][rng.choice(["HV", "MV", "LV"])]
+        elif variant == "season_over":
+            s1["end"] = "2020-01-%02d" % rng.choice([5, 7, 11])
     scn = {"scenario": {"start_time": iso(start), "interval": interval, "n_intervals": n_steps},
            "components": comp, "events": ev}
     if scn_cst is not None:
